@@ -22,7 +22,9 @@ Fixpoint lines_of (s : str) : list str :=                     (* str.split("\n")
   end.
 
 Inductive sop :=
-| SCreate
+| SCreate (ind : nat)                                          (* output.section() on an output whose _indent is ind:
+                                                                  SectionOutput(...), then section.indent(ind) *)
+| SAddContent (i : nat) (text : str)                           (* the public SectionOutput.add_content: recorded, not written *)
 | SWrite (i : nat) (text : str) (new_line : bool)
 | SOverwrite (i : nat) (text : str)
 | SClear (i : nat) (n : option nat)
@@ -74,14 +76,25 @@ Definition lastn {X} (n : nat) (l : list X) : list X := skipn (length l - n) l.
 Definition droplast {X} (n : nat) (l : list X) : list X := firstn (length l - n) l.
 
 Definition with_indent (s : sec) (n : nat) : sec := {| sc_content := sc_content s; sc_lines := sc_lines s; sc_indent := n |}.
-Definition new_sec : sec := {| sc_content := []; sc_lines := 0; sc_indent := 0 |}.
+Definition new_sec (ind : nat) : sec := {| sc_content := []; sc_lines := 0; sc_indent := ind |}.
+(* add_content(text) alone: the indented lines are measured (remove_format on the shared formatter) and recorded; nothing
+   is written - the record and the screen part ways (outside the class of screen_is_stack: good_opb below is false) *)
+Definition add_content_step (w : nat) (st : secs) (f : formatter) (i : nat) (text : str) : res (secs * formatter * list emit) :=
+  match nth_error st i with
+  | None => Ok (st, f, [])
+  | Some s =>
+    let ls := content_lines (sc_indent s) text in
+    do m <- measure w f ls (sc_lines s);
+    Ok (set_sec st i {| sc_content := sc_content s ++ ls; sc_lines := snd m; sc_indent := sc_indent s |}, fst m, [])
+  end.
 
 (* on a decorated output.  The formatter is threaded in the order of the calls: the rows of the new lines are
    measured (remove_format), the text is written (format, indented, always followed by a line feed), the newer
    sections are printed again in ONE format call *)
 Definition sstep_ansi (w : nat) (st : secs) (f : formatter) (o : sop) : res (secs * formatter * list emit) :=
   match o with
-  | SCreate => Ok (st ++ [new_sec], f, [])
+  | SCreate ind => Ok (st ++ [new_sec ind], f, [])
+  | SAddContent i text => add_content_step w st f i text
   | SIndent i n =>
     match nth_error st i with
     | None => Ok (st, f, [])
@@ -131,9 +144,10 @@ Definition sstep (w : nat) (st : secs) (f : formatter) (o : sop) : res (secs * f
 Definition write_plain (f : formatter) (n : nat) (text : str) (nl : bool) : res (formatter * list emit) :=
   do x <- remove_format f (indent_text n text);
   Ok (fst x, emits_of_text (snd x) ++ (if nl then [Nl] else [])).
-Definition sstep_plain (st : secs) (f : formatter) (o : sop) : res (secs * formatter * list emit) :=
+Definition sstep_plain (w : nat) (st : secs) (f : formatter) (o : sop) : res (secs * formatter * list emit) :=
   match o with
-  | SCreate => Ok (st ++ [new_sec], f, [])
+  | SCreate ind => Ok (st ++ [new_sec ind], f, [])
+  | SAddContent i text => add_content_step w st f i text      (* add_content does not ask whether the output is decorated *)
   | SIndent i n =>
     match nth_error st i with
     | None => Ok (st, f, [])
@@ -157,9 +171,25 @@ Fixpoint srun (ansi : bool) (w : nat) (st : secs) (f : formatter) (ops : list so
   match ops with
   | [] => Ok (st, f, [])
   | o :: r =>
-    do a <- (if ansi then sstep w st f o else sstep_plain st f o);
+    do a <- (if ansi then sstep w st f o else sstep_plain w st f o);
     do b <- srun ansi w (fst (fst a)) (snd (fst a)) r;
     Ok (fst (fst b), snd (fst b), snd a ++ snd b)
+  end.
+
+(* the same run, told in full when a call raises: the sections, the formatter and the stream as they were BEFORE the call
+   that raised, the position of that call and the error (what the failing call itself had already done to the stream and
+   to its record before it raised is not modelled) *)
+Fixpoint srun_part (ansi : bool) (w : nat) (st : secs) (f : formatter) (ops : list sop)
+  : secs * formatter * list emit * option (nat * ekind) :=
+  match ops with
+  | [] => (st, f, [], None)
+  | o :: r =>
+    match (if ansi then sstep w st f o else sstep_plain w st f o) with
+    | Err k => (st, f, [], Some (0, k))
+    | Ok a =>
+      let '(st2, f2, es2, e) := srun_part ansi w (fst (fst a)) (snd (fst a)) r in
+      (st2, f2, snd a ++ es2, option_map (fun x : nat * ekind => (S (fst x), snd x)) e)
+    end
   end.
 
 (* ---- the texts the theorem of Props/C15.v speaks about, as a check that can be run ----
@@ -176,36 +206,56 @@ Definition good_lineb (sty : styles) (l : str) : bool :=
 (* a written text: all its lines are good; an op sequence: all its written texts are *)
 Definition good_textb (sty : styles) (text : str) : bool := forallb (good_lineb sty) (lines_of text).
 Definition good_opb (sty : styles) (o : sop) : bool :=
-  match o with SWrite _ text _ | SOverwrite _ text => good_textb sty text | _ => true end.
+  match o with SWrite _ text _ | SOverwrite _ text => good_textb sty text | SAddContent _ _ => false | _ => true end.
 Definition good_opsb (sty : styles) (ops : list sop) : bool := forallb (good_opb sty) ops.
 
 (* ---- wire ---- *)
 Definition dec_sop (s : sexp) : option sop :=
   match s with
-  | L [A 0%Z] => Some SCreate
   | L [A 1%Z; i; t; nl] => match dN i, dStr t, dB nl with Some i, Some t, Some nl => Some (SWrite (N.to_nat i) t nl) | _, _, _ => None end
+  | L [A 6%Z; i; t] => match dN i, dStr t with Some i, Some t => Some (SAddContent (N.to_nat i) t) | _, _ => None end
   | L [A 2%Z; i; t] => match dN i, dStr t with Some i, Some t => Some (SOverwrite (N.to_nat i) t) | _, _ => None end
   | L [A 3%Z; i; n] => match dN i, dOpt dN n with Some i, Some n => Some (SClear (N.to_nat i) (option_map N.to_nat n)) | _, _ => None end
   | L [A 4%Z; i; n] => match dN i, dN n with Some i, Some n => Some (SIndent (N.to_nat i) (N.to_nat n)) | _, _ => None end
   | _ => None
   end.
+(* operations on the OUTPUT the sections belong to, next to those on its sections: output.indent(n) (the Indent object is
+   dropped, the indentation stays), output.section() - the new section takes the indentation the output has THEN -, and
+   an operation on a section *)
+Inductive pop := PIndent (n : nat) | PSection | POp (o : sop).
+Fixpoint compile (ind : nat) (ops : list pop) : list sop :=
+  match ops with
+  | [] => []
+  | PIndent n :: r => compile n r
+  | PSection :: r => SCreate ind :: compile ind r
+  | POp o :: r => o :: compile ind r
+  end.
+Definition dec_pop (s : sexp) : option pop :=
+  match s with
+  | L [A 0%Z] => Some PSection
+  | L [A 5%Z; n] => option_map (fun n => PIndent (N.to_nat n)) (dN n)
+  | _ => option_map POp (dec_sop s)
+  end.
 (* request: ansi?, width, the style set of the formatter, the ops.  answer: the emits, every section's content lines /
    row count / indentation, the terminal after the emits, and whether the op sequence is inside the class of the
-   theorem (every written line is good markup) *)
+   theorem (every written line is good markup); when a call raises: the error, the position of the call among the
+   section operations (calls on the parent output not counted), and the same four things for the calls before it *)
 Definition run_C15 (s : sexp) : sexp :=
   match s with
   | L [ansi; w; set; ops] =>
-    match dB ansi, dN w, dList OutputM.dec_cstyle set, dList dec_sop ops with
+    match dB ansi, dN w, dList OutputM.dec_cstyle set, option_map (compile 0) (dList dec_pop ops) with
     | Some ansi, Some w, Some set, Some ops =>
       match new_formatter (if ansi then FAnsi true else FPlain) set with
       | Ok f =>
-        match srun ansi (N.to_nat w) [] f ops with
-        | Ok (st, _, es) =>
-          L [A 0%Z; sList enc_emit es;
-             sList (fun x => L [sList sStr (sc_content x); A (Z.of_nat (sc_lines x)); A (Z.of_nat (sc_indent x))]) st;
-             enc_term (feed (N.to_nat w) term_init es);
-             sB (good_opsb (f_styles f) ops)]
-        | Err k => sErr k
+        let '(st, _, es, e) := srun_part ansi (N.to_nat w) [] f ops in
+        let body (done : list sop) :=
+          [sList enc_emit es;
+           sList (fun x => L [sList sStr (sc_content x); A (Z.of_nat (sc_lines x)); A (Z.of_nat (sc_indent x))]) st;
+           enc_term (feed (N.to_nat w) term_init es);
+           sB (good_opsb (f_styles f) done)] in
+        match e with
+        | None => L (A 0%Z :: body ops)
+        | Some (j, k) => L (A (-1)%Z :: A (ekind_code k) :: A (Z.of_nat j) :: body (firstn j ops))
         end
       | Err k => sErr k
       end
